@@ -16,6 +16,18 @@ import (
 
 var depRegs = []string{"t0", "t1", "t2"}
 
+// syncTail makes every load into the given registers complete before the exit
+// point by a dependent use (the families other than C09's are not about what
+// happens to work that is still in flight at ret; C09 is).
+func syncTail(regs ...string) []string {
+	dst := []string{"a3", "a4", "a5", "a6", "a7"}
+	var out []string
+	for i, r := range regs {
+		out = append(out, fmt.Sprintf("add %s, %s, zero", dst[i%len(dst)], r))
+	}
+	return out
+}
+
 // canonical relabels the registers t0,t1,t2 in order of first appearance so
 // that sequences equal up to renaming are generated once.
 func canonical(ins [][]string) string {
@@ -79,6 +91,7 @@ func depText(ins [][]string) string {
 			lines = append(lines, fmt.Sprintf("bne %s, %s, skip%d", in[1], in[2], nb), "addi t3, t3, 1", fmt.Sprintf("skip%d:", nb))
 		}
 	}
+	lines = append(lines, syncTail("t0", "t1", "t2", "t3")...)
 	lines = append(lines, "ret")
 	return asm(lines...)
 }
@@ -223,7 +236,20 @@ func familyMemDeps(maxDist int, full bool) []Skeleton {
 	// store, load, store, load chain on one word
 	out = append(out, Skeleton{ID: "chain:sw-lw-sw-lw", Prog: asm("sw t0, 8(zero)", "lw t3, 8(zero)", "sw t1, 8(zero)", "lw t4, 8(zero)", "ret")})
 	out = append(out, Skeleton{ID: "chain:dep-addr", Prog: asm("sw t0, 8(zero)", "lw t3, 8(zero)", "add t4, t3, t1", "sw t4, 12(zero)", "lw t5, 12(zero)", "ret")})
-	return out
+	return withSync(out, "t3", "t4", "t5", "t6")
+}
+
+// withSync inserts the sync tail before the final ret of every skeleton.
+func withSync(sks []Skeleton, regs ...string) []Skeleton {
+	tail := strings.Join(syncTail(regs...), "\n") + "\nret\n"
+	for i := range sks {
+		if strings.HasSuffix(sks[i].Prog, "\nret\n") {
+			sks[i].Prog = strings.TrimSuffix(sks[i].Prog, "ret\n") + tail
+		} else {
+			sks[i].Prog += strings.Join(syncTail(regs...), "\n") + "\n"
+		}
+	}
+	return sks
 }
 
 // ---------------------------------------------------------------------------
@@ -326,8 +352,8 @@ func familyShadows(full bool) []Skeleton {
 			l := append([]string{}, b.pre...)
 			l = append(l, b.ins)
 			l = append(l, shadows[s]...)
-			l = append(l, "li s5, 9", "ret") // fall-through code (executed when the branch is not taken)
-			l = append(l, "far:", "li s6, 5", "land:", "add s7, t3, t4", "lw s8, 136(zero)", "ret")
+			l = append(l, "li s5, 9", "add s9, t3, zero", "add s10, t4, zero", "ret") // fall-through code (executed when the branch is not taken)
+			l = append(l, "far:", "li s6, 5", "land:", "add s7, t3, t4", "lw s8, 136(zero)", "add s9, s8, zero", "add s10, t3, zero", "add s11, t4, zero", "ret")
 			init := "s4=1048576" // an out-of-bounds address for the speculative load
 			if s != "lw-oob" {
 				init = ""
@@ -363,7 +389,8 @@ func familyCacheShort() []Skeleton {
 	out = append(out, Skeleton{ID: "cache:write-miss", Prog: asm("sw t0, 72(zero)", "lw t3, 76(zero)", "lw t4, 72(zero)", "sw t1, 76(zero)", "lw t5, 76(zero)", "ret")})
 	// dirty line left in the cache at the end (no reload): must reach memory
 	out = append(out, Skeleton{ID: "cache:dirty-at-exit", Prog: asm("lw t3, 8(zero)", "sw t0, 8(zero)", "sw t1, 12(zero)", "sb t2, 17(zero)", "ret")})
-	out = append(out, Skeleton{ID: "cache:dirty-at-end", Prog: asm("lw t3, 8(zero)", "sw t0, 8(zero)", "sw t1, 12(zero)")})
+	out = withSync(out, "t3", "t4", "t5", "t6")
+	out = append(out, Skeleton{ID: "cache:dirty-at-end", Prog: asm("lw t3, 8(zero)", "add a3, t3, zero", "sw t0, 8(zero)", "sw t1, 12(zero)")})
 	return out
 }
 
@@ -375,7 +402,9 @@ func familyEviction(n, stride int, id string) Skeleton {
 	for i := 1; i <= n; i++ {
 		l = append(l, fmt.Sprintf("lw t4, %d(zero)", i*stride))
 	}
-	l = append(l, "lw t5, 4(zero)", "lw t6, 0(zero)", "ret")
+	l = append(l, "lw t5, 4(zero)", "lw t6, 0(zero)")
+	l = append(l, syncTail("t3", "t4", "t5", "t6")...)
+	l = append(l, "ret")
 	return Skeleton{ID: id, Prog: asm(l...), Mem: (n + 2) * stride, SymMem: fmt.Sprintf("0-%d", 16), MaxSteps: n + 16}
 }
 
